@@ -837,7 +837,7 @@ fn finish_check(spec: &CheckSpec, agg: Agg, t0: Instant) -> i32 {
                 let text = String::from_utf8_lossy(&o.stdout).to_string();
                 std::fs::write(&path, serde_json::to_string_pretty(&serde_json::json!({"freerun": true, "args": args, "observed": text})).unwrap()).unwrap();
                 println!("VIOLATION property={} replay={}", spec.property, path);
-                println!("  background collector: spans finished without flush() were not delivered in time, the reporter is not invoked every interval, or spans were lost while the reporter was replaced: {text}");
+                println!("  background collector: spans finished without flush() were not delivered in time (also: finished while a cycle was running), or spans were lost while the reporter was replaced: {text}");
                 external_json = serde_json::from_str(&text).unwrap_or(serde_json::Value::Null);
             }
             Ok(o) if o.status.success() => match serde_json::from_slice::<serde_json::Value>(&o.stdout) {
